@@ -2,7 +2,7 @@
    what the implementation produced. Strings are interned by the driver (0 = empty string). The meaning of regex atoms is
    given as a finite table measured by the harness (pattern id, value id) - the model never interprets patterns. *)
 From Coq Require Import NArith List Bool.
-From OG Require Import C10.Model C10.Regex.
+From OG Require Import C10.Model C10.Regex C10.ListingCond.
 Import ListNotations.
 Open Scope N_scope.
 
@@ -15,7 +15,12 @@ Inductive cop :=
    atoms are read through Go regexp (the pruning path evaluates them that way), ids by the show-series path, ids by the
    select path *)
 | CQuery (m : N) (e : expr) (alts : list expr) (ids1 ids2 : list N)
-| CList (m : N) (ss : list series) (keys : list N) (vals : list (N * list N)).
+| CList (m : N) (ss : list series) (keys : list N) (vals : list (N * list N))
+(* a predicate with IN / NOT IN atoms (rendered as OR of = / AND of !=): only the select path implements them *)
+| CQuery2 (m : N) (e : expr) (alts : list expr) (ids2 : list N)
+(* listings with a condition and cardinalities: series cardinality, series keys, tag values per key under the condition,
+   number of distinct values per key (unconditional) *)
+| CCond (m : N) (e : expr) (card : N) (ss : list series) (vals : list (N * list N)) (vcards : list (N * N)).
 
 Definition am_tab (tab : list (N * N)) (p v : N) : bool :=
   existsb (fun x => (fst x =? p) && (snd x =? v)) tab.
@@ -27,7 +32,8 @@ Definition sset_eqb (a b : list series) : bool :=
   (N.of_nat (length a) =? N.of_nat (length b)) && forallb (fun x => smem x b) a && forallb (fun x => smem x a) b.
 
 (* codes: 1 insert id, 3 ids by the show-series path, 5 ids by the select path (no reading matches), 6 series listing,
-   7 tag-key listing, 8 tag-value listing *)
+   7 tag-key listing, 8 tag-value listing, 11 series cardinality with condition, 12 series keys with condition, 13 tag values
+   with condition, 14 tag value cardinality *)
 Definition check_op (cl cn : bool) (tab : list (N * N)) (i : index) (o : cop) : index * list N :=
   let slow := if cl then slow_current else slow_repaired in
   let am := am_tab tab in
@@ -41,6 +47,17 @@ Definition check_op (cl cn : bool) (tab : list (N * N)) (i : index) (o : cop) : 
       let p1 := if cn then search_ids_top_current am T m e else search_ids_repaired am T m e in
       (i, (if set_eqb p1 ids1 then [] else [3]) ++
           (if existsb (fun e' => set_eqb (search am T m e') ids2) (e :: alts) then [] else [5]))
+  | CQuery2 m e alts ids2 =>
+      let T := postings (vis i) in
+      (i, if existsb (fun e' => set_eqb (search am T m e') ids2) (e :: alts) then [] else [5])
+  | CCond m e card ss vals vcards =>
+      let T := postings (vis i) in
+      let p1 := dedup (if cn then search_ids_top_current am T m e else search_ids_repaired am T m e) in
+      (i, (if N.of_nat (length p1) =? card then [] else [11]) ++
+          (if sset_eqb (flat_map (key_of (vis i)) p1) ss then [] else [12]) ++
+          (if forallb (fun kv => set_eqb (map t_v (filter (fun t => (t_m t =? m) && (t_k t =? fst kv) && mem (t_id t) p1) T)) (snd kv)) vals
+           then [] else [13]) ++
+          (if forallb (fun kc => N.of_nat (tag_value_cardinality (vis i) m (fst kc)) =? snd kc) vcards then [] else [14]))
   | CList m ss keys vals =>
       (i, (if sset_eqb (list_series (vis i) m) ss then [] else [6]) ++
           (if set_eqb (list_tag_keys (vis i) m) keys then [] else [7]) ++
